@@ -2,10 +2,17 @@
      <id> s<caseseed> k<0|1> n<N> <node>*N : <op>*     (k1: GC keeps the digest references of live descriptors)
    node = <kind 0..5>,<subject|->,<succ.succ...|->  (kind: 0 blob 1 image 2 docker 3 index 4 dockerl 5 artifact)
    op = P<n> T<n>.<t> U<t> D<n> G R(eopen) F(oreign index + reopen) A<0|1> S<id>.<alg 0 sha256 1 sha512 2 sha384 3 other>.<valid>
-   Output: <id> then, per op, <op>=<res>/B:..../I:..../P:..../S:....  (see harness/cmd/c09). *)
+        V<0|1> (AutoSaveIndex)  I (SaveIndex)  B<id> (Push of an undecodable manifest)  Y<n> (Delete of blob n with its octet-stream descriptor)
+        Q<k>:<order> (GC whose sweep fails at entry k of the directory order)  Ke (GC cancelled before the index is rebuilt)
+        K<k>:<b<n>|s<id>>,... (GC cancelled in the sweep after k entries of the given directory order)
+   Output: <id> then, per op, <op>=<res>/B:..../I:..../P:..../S:..../J:....  (see harness/cmd/c09; J = index.json). *)
 let ints_of sep s = if s = "-" || s = "" then [] else List.map int_of_string (String.split_on_char sep s)
 let join sep l = String.concat sep l
-let show_res r = match r with Ok -> "ok" | ENotFound -> "notfound" | EExists -> "exists" | EHang -> "hang"
+let show_res r = match r with Ok -> "ok" | ENotFound -> "notfound" | EExists -> "exists" | EHang -> "hang" | ECanceled -> "canceled" | EOther -> "other"
+let show_disk d =
+  let tags = List.sort compare (List.filter_map (fun (r, m) -> match r with RTag t -> Some (int_of_nat t, int_of_nat m) | _ -> None) d) in
+  let digs = List.sort_uniq compare (List.filter_map (fun (r, m) -> match r with RDig _ -> Some (int_of_nat m) | _ -> None) d) in
+  join "," (List.map (fun (t, m) -> Printf.sprintf "t%d>%d" t m) tags @ List.map (fun m -> Printf.sprintf "d%d" m) digs)
 let observe succ n st =
   let ids l = join "," (List.map string_of_int (List.sort_uniq compare (List.map int_of_nat l))) in
   let tags = List.sort compare (List.filter_map (fun (r, m) -> match r with RTag t -> Some (int_of_nat t, int_of_nat m) | _ -> None) st.idx) in
@@ -35,33 +42,57 @@ let () =
       let ops = match rest with ":" :: o -> o | _ -> failwith "no ops" in
       let parsed = Array.of_list (List.map (fun s ->
         match String.split_on_char ',' s with
-        | [k; sub; sc] -> (is_manifest_kind (nat_of_int (int_of_string k)), (if sub = "-" then None else Some (nat_of_int (int_of_string sub))), List.map nat_of_int (ints_of '.' sc))
+        | [k; sub; sc] ->
+          let kind = nat_of_int (int_of_string k) in
+          (* the subject field is read only for the media types of manifestutil.Subject's switch *)
+          (is_manifest_kind kind, (if sub = "-" || not (kind_has_subject kind) then None else Some (nat_of_int (int_of_string sub))), List.map nat_of_int (ints_of '.' sc))
         | _ -> failwith "node") nodes) in
       let get k = let i = int_of_nat k in if i < n then Some parsed.(i) else None in
       let succ k = match get k with Some (_, _, s) -> s | None -> [] in
       let subject k = match get k with Some (_, s, _) -> s | None -> None in
       let manifest k = match get k with Some (m, _, _) -> m | None -> false in
-      let st = ref init in
+      let st = ref pinit in
       let out = Buffer.create 256 in
       let stop = ref false in
       List.iter (fun o ->
         if not !stop then begin
           let arg = String.sub o 1 (String.length o - 1) in
           let op = match o.[0] with
-            | 'P' -> OPush (nat_of_int (int_of_string arg))
-            | 'T' -> (match ints_of '.' arg with [a; t] -> OTag (nat_of_int a, nat_of_int t) | _ -> failwith "T")
-            | 'U' -> OUntag (nat_of_int (int_of_string arg))
-            | 'D' -> ODelete (nat_of_int (int_of_string arg))
-            | 'G' -> OGC
-            | 'R' -> OReopen
-            | 'F' -> OForeign
-            | 'A' -> OAuto (arg = "1")
-            | 'S' -> (match ints_of '.' arg with [a; k; v] -> OStray { s_id = nat_of_int a; s_alg = nat_of_int k; s_valid = (v = 1) } | _ -> failwith "S")
+            | 'P' -> PO (OPush (nat_of_int (int_of_string arg)))
+            | 'T' -> (match ints_of '.' arg with [a; t] -> PO (OTag (nat_of_int a, nat_of_int t)) | _ -> failwith "T")
+            | 'U' -> PO (OUntag (nat_of_int (int_of_string arg)))
+            | 'D' -> PO (ODelete (nat_of_int (int_of_string arg)))
+            | 'G' -> PO OGC
+            | 'R' -> PO OReopen
+            | 'F' -> PO OForeign
+            | 'A' -> PO (OAuto (arg = "1"))
+            | 'S' -> (match ints_of '.' arg with [a; k; v] -> PO (OStray { s_id = nat_of_int a; s_alg = nat_of_int k; s_valid = (v = 1) }) | _ -> failwith "S")
+            | 'V' -> PAutoSave (arg = "1")
+            | 'I' -> PSave
+            | 'Y' -> PDeleteAlt (nat_of_int (int_of_string arg))
+            | 'B' -> PPushBad (nat_of_int (int_of_string arg))
+            | 'Q' ->
+              (match String.split_on_char ':' arg with
+                | [k; ord] ->
+                  let ents = List.map (fun e ->
+                    let v = nat_of_int (int_of_string (String.sub e 1 (String.length e - 1))) in
+                    if e.[0] = 'b' then SBlob v else SStray v) (List.filter (fun x -> x <> "") (String.split_on_char ',' ord)) in
+                  PGCBlocked (ents, nat_of_int (int_of_string k))
+                | _ -> failwith "Q")
+            | 'K' ->
+              if arg = "e" then PGCCancel (true, [], O)
+              else (match String.split_on_char ':' arg with
+                | [k; ord] ->
+                  let ents = List.map (fun e ->
+                    let v = nat_of_int (int_of_string (String.sub e 1 (String.length e - 1))) in
+                    if e.[0] = 'b' then SBlob v else SStray v) (List.filter (fun x -> x <> "") (String.split_on_char ',' ord)) in
+                  PGCCancel (false, ents, nat_of_int (int_of_string k))
+                | _ -> failwith "K")
             | _ -> failwith "op" in
-          let (st', r) = step succ subject manifest cfg kl !st op in
+          let (st', r) = pstep succ subject manifest cfg kl !st op in
           st := st';
           if r = EHang then begin stop := true; Buffer.add_string out (Printf.sprintf " %s=hang" o) end
-          else Buffer.add_string out (Printf.sprintf " %s=%s/%s" o (show_res r) (observe succ n st'))
+          else Buffer.add_string out (Printf.sprintf " %s=%s/%s/J:%s" o (show_res r) (observe succ n st'.mem) (show_disk st'.disk))
         end) ops;
       Printf.printf "%s%s\n" id (Buffer.contents out)
     | [] -> ()
